@@ -686,7 +686,12 @@ class SkyCoordTableCoordinate(BaseTableCoordinate):
 
         # Build old array grids. Note self._slice give the slice item(s) required to
         # make the underlying SkyCoord match the dimensionality of the associated data cube.
-        old_array_grids = [np.arange(d)[slc] for d, slc in zip(shape, self._slice)]
+        # The array indices count from the start of the coordinate as it is now, i.e. of the
+        # sliced components of a meshed table that has been sliced.
+        if self.mesh:
+            old_array_grids = [np.arange(len(comp)) for comp in self._sliced_components]
+        else:
+            old_array_grids = [np.arange(d)[slc] for d, slc in zip(shape, self._slice)]
         # Iterate through components and interpolate each.
         if self.mesh:
             new_components = [np.interp(new_grid, old_grid, comp, **kwargs)
